@@ -209,11 +209,34 @@ def guarded(f):
 # generic correspondence loop
 # ------------------------------------------------------------------------------------------
 
+class Reporter:
+    """per unit: at most 3 concrete failing inputs and 1 disagreement without failing input are written, so
+    that the early units cannot use up lib.Ctx's cap of replay files before a later unit finds a failing input"""
+
+    def __init__(self, ctx, unit):
+        self.ctx, self.unit, self.concrete, self.nfi = ctx, unit, 0, 0
+
+    def violation(self, what, replay, no_failing_input=False):
+        if no_failing_input:
+            self.nfi += 1
+            if self.nfi > 1:
+                return
+        else:
+            self.concrete += 1
+            if self.concrete > 3:
+                return
+        self.ctx.violation(self.unit, what, replay, no_failing_input=no_failing_input)
+
+    @property
+    def bad(self):
+        return self.concrete + self.nfi
+
+
 def diff_unit(ctx, unit, cases, lines, impl_fn, spec_fn, nontrivial_fn, show_case, dist_fn=None):
     mout = lib.run_model_parallel("C14", lines)
     nontriv = set()
     dist = {}
-    bad = 0
+    rep = Reporter(ctx, unit)
     for idx, (case, mo) in enumerate(zip(cases, mout)):
         out = impl_fn(case, idx)
         if dist_fn:
@@ -223,17 +246,17 @@ def diff_unit(ctx, unit, cases, lines, impl_fn, spec_fn, nontrivial_fn, show_cas
             nontriv.add(lib.canon(show_case(case)))
         reason = spec_fn(case, out) if spec_fn else None
         if reason:
-            ctx.violation(unit, "%s: %s (impl %s, model %s)" % (unit, reason, out, mo),
+            rep.violation("%s: %s (impl %s, model %s)" % (unit, reason, out, mo),
                           {"input": show_case(case), "impl": out, "model": mo, "unit": unit})
-            bad += 1
         elif out != mo:
-            ctx.violation(unit, "model/implementation disagree on %s (impl %s, model %s); the property predicate "
+            rep.violation("model/implementation disagree on %s (impl %s, model %s); the property predicate "
                           "holds on this input" % (unit, out, mo),
                           {"input": "corr:C14/%s" % unit, "case": show_case(case), "impl": out, "model": mo,
                            "unit": unit}, no_failing_input=True)
-            bad += 1
-        if bad > 6:
+        if rep.bad > 200:
             break
+    if rep.bad:
+        dist["disagreements / predicate failures"] = rep.bad
     ctx.count(unit, len(cases), len(nontriv), dist)
     if cases:
         k = len(cases) // 3
@@ -447,7 +470,7 @@ def unit_split(ctx):
                      lambda c, o: o.startswith("ok") and c[0]["s"] < c[1] < c[0]["e"] and bool(c[0]["sub"] or c[0]["sup"]),
                      lambda c: {"chunk": c[0], "t": c[1], "early": c[2]}, lambda c, o: kind_of(o))
     # extraction cross-check: a sample re-evaluated inside Coq by vm_compute
-    idxs = sorted(ctx.rng.sample(range(len(cases)), min(120, len(cases))))
+    idxs = sorted(ctx.rng.sample(range(len(cases)), min(200 if ctx.thorough else 60, len(cases))))
     eqs = []
     for i in idxs:
         c, t, early = cases[i]
@@ -572,7 +595,7 @@ def unit_concat(ctx):
     # compared through the impl's output below; the model side of the inverse is the Coq theorem.
     nontriv = set()
     dist = {}
-    bad = 0
+    rep = Reporter(ctx, "annot_concat")
     for idx, (case, mo) in enumerate(zip(cases, mout)):
         if case[0] == "inverse":
             _, c, t, early = case
@@ -587,15 +610,13 @@ def unit_concat(ctx):
                 r = guarded(f)
                 out, halves = r if isinstance(r, tuple) else (r, r)
                 if halves != mo:
-                    ctx.violation("annot_concat", "model/implementation disagree on split (impl %s, model %s)" % (halves, mo),
+                    rep.violation("model/implementation disagree on split (impl %s, model %s)" % (halves, mo),
                                   {"input": "corr:C14/annot_concat", "case": case, "impl": halves, "model": mo},
                                   no_failing_input=True)
-                    bad += 1
             reason = spec_concat_inverse(case, out)
             if reason:
-                ctx.violation("annot_concat", reason, {"input": {"chunk": c, "t": t, "early": early}, "impl": out,
-                                                       "unit": "annot_concat"})
-                bad += 1
+                rep.violation(reason, {"input": {"chunk": c, "t": t, "early": early}, "impl": out,
+                                       "unit": "annot_concat"})
             if out.startswith("ok") and c["s"] < t < c["e"]:
                 nontriv.add(lib.canon(case))
             k = "inverse " + ("ok" if out.startswith("ok") and "| ok" in out else "other")
@@ -604,15 +625,14 @@ def unit_concat(ctx):
             cs, badc = build_all(rcs)
             out = badc or guarded(lambda: "ok " + show_real(strax.Chunk.concatenate(cs, allow_superrun=bool(allow))))
             if out != mo:
-                ctx.violation("annot_concat", "model/implementation disagree on concatenate (impl %s, model %s)" % (out, mo),
+                rep.violation("model/implementation disagree on concatenate (impl %s, model %s)" % (out, mo),
                               {"input": "corr:C14/annot_concat", "case": case, "impl": out, "model": mo},
                               no_failing_input=True)
-                bad += 1
             if out.startswith("ok") and len(rcs) >= 2:
                 nontriv.add(lib.canon(case))
             k = "concat " + kind_of(out)
         dist[k] = dist.get(k, 0) + 1
-        if bad > 6:
+        if rep.bad > 200:
             break
     ctx.count("annot_concat", len(cases), len(nontriv), dist)
     ctx.sample({"unit": "annot_concat", "case": cases[len(cases) // 2], "model": mout[len(cases) // 2]})
@@ -815,6 +835,32 @@ def fresh_dir(tag):
     return d
 
 
+class CaseTimeout(BaseException):
+    """a real get_iter call did not return within the (generous) limit: the case is skipped, hangs are C06's"""
+
+
+@contextlib.contextmanager
+def time_limit(seconds):
+    import signal
+    import threading
+    if threading.current_thread() is not threading.main_thread():
+        yield
+        return
+
+    def handler(signum, frame):
+        raise CaseTimeout()
+    old = signal.signal(signal.SIGALRM, handler)
+    signal.alarm(seconds)
+    try:
+        yield
+    finally:
+        signal.alarm(0)
+        signal.signal(signal.SIGALRM, old)
+
+
+GET_TIMEOUT_S = 120
+
+
 def quiet():
     warnings.simplefilter("ignore")
     logging.getLogger("strax").setLevel(logging.CRITICAL)
@@ -828,6 +874,7 @@ def unit_spec(ctx):
     quiet()
     d = fresh_dir("spec")
     st = mk_context(d, [Src, mk_level("l1", "src", True)], True)
+    rep, repk = Reporter(ctx, "spec_order"), Reporter(ctx, "data_key")
     cases = []
     n_cases = 300 if ctx.thorough else 80
     for _ in range(n_cases):
@@ -852,10 +899,10 @@ def unit_spec(ctx):
         m_read = [int(x) for x in mo.split("|")[1].split()[1:]]
         by_start = sorted(set(data), key=lambda r: (starts[r], data.index(r)))
         if m_def != by_start:
-            ctx.violation("spec_order", "the model of define_run does not order the spec by run start",
+            rep.violation("the model of define_run does not order the spec by run start",
                           {"input": "corr:C14/spec_order/model", "case": [data, starts], "model": mo}, no_failing_input=True)
         if got != m_read:
-            ctx.violation("spec_order", "sub_run_spec read back %s, model %s" % (got, m_read),
+            rep.violation("sub_run_spec read back %s, model %s" % (got, m_read),
                           {"input": "corr:C14/spec_order", "case": [data, starts], "impl": got, "model": mo},
                           no_failing_input=True)
         strict = all(starts[a] != starts[b] for a in set(data) for b in set(data) if a != b)
@@ -875,11 +922,11 @@ def unit_spec(ctx):
     seen = {}
     for ((rs, comb), sfx), mo in zip(suffixes.items(), kout):
         if len(sfx) != 1:
-            ctx.violation("data_key", "the same sub-run set gave different keys: %s" % sorted(sfx),
+            repk.violation("the same sub-run set gave different keys: %s" % sorted(sfx),
                           {"input": {"runs": list(rs), "combining": comb}, "keys": sorted(sfx)})
         for other_mo, other in seen.items():
             if (other_mo == mo) != (other == sfx):
-                ctx.violation("data_key", "key equality differs from equality of canonical serialisations",
+                repk.violation("key equality differs from equality of canonical serialisations",
                               {"input": {"runs": list(rs), "combining": comb}, "model": mo, "keys": sorted(sfx)})
         seen[mo] = sfx
     ctx.count("data_key", len(klines), len(klines), {"distinct keys": len({tuple(sorted(s)) for s in suffixes.values()})})
@@ -1071,7 +1118,12 @@ def run_pipeline_impl(case, tag):
             def f():
                 cs = list(st.get_iter("_a", "l3", processor=proc, progress_bar=False, multi_run_progress_bar=False, **kw))
                 return "ok " + " ".join(show_real(c) for c in cs)
-            return guarded(f)
+            try:
+                with time_limit(GET_TIMEOUT_S):
+                    return guarded(f)
+            except CaseTimeout:
+                res["timeout"] = True
+                return "timeout"
         res["out"] = get()
         saved = []
         if case["write"] and res["out"].startswith("ok"):
@@ -1152,19 +1204,24 @@ def unit_pipeline(ctx):
     spec_out = lib.run_model("C14", spec_lines)
     spec_read = [[int(x) for x in o.split("|")[1].split()[1:]] for o in spec_out]
     pout = lib.run_model_parallel("C14", [model_pipeline_line(c, sr) for c, sr in zip(cases, spec_read)])
-    results = run_parallel(cases, budget_s=1200 if ctx.thorough else 80)
+    results = run_parallel(cases, budget_s=1200 if ctx.thorough else 60)
     if len(results) < len(cases):
         ctx.notes.append("pipeline: wall-clock budget reached after %d of %d generated cases" % (len(results), len(cases)))
         cases, spec_read, pout = cases[:len(results)], spec_read[:len(results)], pout[:len(results)]
     dist = {}
     nontriv = set()
-    bad = 0
+    rep = Reporter(ctx, "pipeline")
     known = {"F1": 0, "F2": 0}
     for idx, (case, res, sr, po) in enumerate(zip(cases, results, spec_read, pout)):
+        if isinstance(res, str) and "CaseTimeout" in res:
+            res = {"timeout": True}
         if isinstance(res, str):
-            ctx.violation("pipeline", "harness failure on a pipeline case: " + res[-300:],
+            rep.violation("harness failure on a pipeline case: " + res[-300:],
                           {"input": "corr:C14/pipeline/harness", "case": case, "trace": res}, no_failing_input=True)
-            bad += 1
+            continue
+        if res.get("timeout"):
+            dist["skipped: a get_iter call did not return within %d s" % GET_TIMEOUT_S] = \
+                dist.get("skipped: a get_iter call did not return within %d s" % GET_TIMEOUT_S, 0) + 1
             continue
         ordered, gaps = in_order_class(case), gap_class(case)
         zero = any(s == e for ch in case["layout"].values() for (s, e, _) in ch)
@@ -1231,17 +1288,15 @@ def unit_pipeline(ctx):
             if not diffs and kind in ("exact", "rows") and "combining" not in what and gaps and multi_level and ordered:
                 known["F2"] += 1
                 continue
-            ctx.violation("pipeline", r, {"input": case, "impl": res, "model": po, "unit": "pipeline"})
-            bad += 1
+            rep.violation(r, {"input": case, "impl": res, "model": po, "unit": "pipeline"})
         if not reasons and ordered:
             nontriv.add(lib.canon(case))
         for what, a, b in diffs:
-            ctx.violation("pipeline", "model/implementation disagree on %s (impl %s, model %s)" % (what, str(a)[:400], str(b)[:400]),
+            rep.violation("model/implementation disagree on %s (impl %s, model %s)" % (what, str(a)[:400], str(b)[:400]),
                           {"input": "corr:C14/pipeline", "case": case, "impl": res, "model": po, "unit": "pipeline"},
                           no_failing_input=True)
-            bad += 1
-        if bad > 6:
-            break
+    if rep.bad:
+        dist["disagreements / predicate failures"] = rep.bad
     dist["cases in known class F1 (predicate fails as the faithful model predicts)"] = known["F1"]
     dist["cases in known class F2 (predicate fails as the faithful model predicts)"] = known["F2"]
     dist["predicate failures on sub-runs with a zero-duration chunk (outside the quantifier, model agrees)"] = known.get("Z", 0)
@@ -1254,14 +1309,16 @@ def _one(args):
     try:
         with contextlib.redirect_stdout(io.StringIO()), contextlib.redirect_stderr(io.StringIO()):
             return run_pipeline_impl(case, "p%d_%d" % (os.getpid(), i))
-    except Exception:  # noqa
+    except BaseException:  # noqa  (also the time-limit signal, so that a pool worker never dies on it)
         import traceback
         return "EXC " + traceback.format_exc()
 
 
 def run_parallel(cases, budget_s=80):
     """run the implementation on the cases in batches; no new batch is started after the wall-clock budget
-    (a prefix of the generated cases is then evaluated: fewer cases, never a different verdict)"""
+    (a prefix of the generated cases is then evaluated: fewer cases, never a different verdict).  A case whose
+    worker hangs or dies (strax threads that never return) is marked as timed out and skipped; the pool is
+    rebuilt for the next batch."""
     import multiprocessing as mp
     import time
     nproc = min(8, os.cpu_count() or 2)
@@ -1271,11 +1328,24 @@ def run_parallel(cases, budget_s=80):
     out = []
     t0 = time.time()
     batch = 4 * nproc
-    with mp.get_context("fork").Pool(nproc) as pool:
-        for lo in range(0, len(cases), batch):
-            if lo >= 2 * batch and time.time() - t0 > budget_s:
-                break
-            out += pool.map(_one, list(enumerate(cases))[lo:lo + batch], chunksize=1)
+    todo = list(enumerate(cases))
+    for lo in range(0, len(todo), batch):
+        if lo >= 2 * batch and time.time() - t0 > budget_s:
+            break
+        pool = mp.get_context("fork").Pool(nproc)
+        stuck = False
+        try:
+            handles = [pool.apply_async(_one, (x,)) for x in todo[lo:lo + batch]]
+            deadline = time.time() + 3 * GET_TIMEOUT_S + 120
+            for h in handles:
+                try:
+                    out.append(h.get(timeout=max(5.0, deadline - time.time())))
+                except mp.TimeoutError:
+                    out.append({"timeout": True})
+                    stuck = True
+        finally:
+            pool.terminate()
+            pool.join() if not stuck else None
     return out
 
 
@@ -1349,57 +1419,81 @@ def unit_findings(ctx):
 # unit: redefinition histories
 # ------------------------------------------------------------------------------------------
 
-def unit_redefinition(ctx):
+def run_history(layout, rechunk, orders, tag):
+    """define the superrun as each of `orders` in turn, get it every time; returns (failure reason or None,
+    list of is_stored flags seen before each get)"""
     quiet()
-    n_hist = 40 if ctx.thorough else 8
+    d = fresh_dir(tag)
+    seen = []
+    try:
+        for r, chunks in layout.items():
+            LAYOUT[r] = [(s, e, [tuple(x) for x in rows]) for s, e, rows in chunks]
+        st = mk_context(d, [Src, mk_level("l1", "src", True, rechunk, 2)], True)
+        for r, chunks in layout.items():
+            write_run(st, r, chunks[0][0], chunks[-1][1])
+        made = set()
+        for order in orders:
+            spec = sorted(order)
+            st.define_run("_a", [str(r) for r in order])
+            stored = bool(st.is_stored("_a", "l1"))
+            seen.append(stored)
+            if stored != (tuple(spec) in made):
+                return ("after redefining the superrun as %s, is_stored is %s although data was %s under this "
+                        "sub-run set" % (order, stored, "made" if tuple(spec) in made else "never made")), seen
+            try:
+                with time_limit(GET_TIMEOUT_S):
+                    got = impl.ids_of(st.get_array("_a", "l1", progress_bar=False, multi_run_progress_bar=False,
+                                                   processor="single_thread"))
+            except CaseTimeout:
+                return None, seen
+            except Exception as e:  # noqa
+                return ("after redefining the superrun as %s get_array raised %s: %s"
+                        % (order, type(e).__name__, str(e)[:200])), seen
+            want = [i for r in spec for (_, _, rows) in layout[str(r)] for (_, _, i, _) in rows]
+            if got != want:
+                return ("after redefining the superrun as %s get_array returned rows %s, its sub-runs hold %s "
+                        "(stale or wrong data)" % (order, got, want)), seen
+            md = st.get_metadata("_a", "l1")
+            recorded = sorted({ident(k) for ci in md["chunks"] for k in (ci.get("subruns") or {})})
+            if recorded != spec:
+                return "stored superrun data records sub-runs %s, the definition is %s" % (recorded, spec), seen
+            made.add(tuple(spec))
+        return None, seen
+    finally:
+        shutil.rmtree(d, ignore_errors=True)
+
+
+def unit_redefinition(ctx):
+    n_hist = 40 if ctx.thorough else 5
     dist = {}
     nontriv = 0
     for h in range(n_hist):
-        d = fresh_dir("redef%d" % h)
-        try:
-            runs = [1, 2, 3, 4]
-            t = 0
-            first_id = 0
-            layout = {}
-            for r in runs:
-                chunks, first_id = gen_subrun_chunks(ctx.rng, t, first_id, r)
-                layout[str(r)] = chunks
-                LAYOUT[str(r)] = chunks
-                t = chunks[-1][1]
-            st = mk_context(d, [Src, mk_level("l1", "src", True, ctx.rng.random() < 0.5, 2)], True)
-            for r in runs:
-                write_run(st, str(r), layout[str(r)][0][0], layout[str(r)][-1][1])
-            made = {}   # canonical spec -> True
-            hist = []
-            for step in range(6):
-                k = ctx.rng.randint(1, 3)
-                spec = sorted(ctx.rng.sample(runs, k))
-                order = list(spec)
-                ctx.rng.shuffle(order)
-                st.define_run("_a", [str(r) for r in order])
-                canon = tuple(spec)
-                stored = bool(st.is_stored("_a", "l1"))
-                hist.append({"define": order, "stored_before": stored})
-                if stored != (canon in made):
-                    ctx.violation("redefinition", "after redefining the superrun as %s, is_stored is %s although data "
-                                  "was %s under this sub-run set" % (order, stored, "made" if canon in made else "never made"),
-                                  {"input": {"layout": layout, "history": hist}, "unit": "redefinition"})
-                got = impl.ids_of(st.get_array("_a", "l1", progress_bar=False))
-                want = [i for r in spec for (_, _, rows) in layout[str(r)] for (_, _, i, _) in rows]
-                if got != want:
-                    ctx.violation("redefinition", "after redefining the superrun as %s get_array returned rows %s, "
-                                  "its sub-runs hold %s (stale or wrong data)" % (order, got, want),
-                                  {"input": {"layout": layout, "history": hist}, "unit": "redefinition"})
-                md = st.get_metadata("_a", "l1")
-                recorded = sorted({ident(k) for ci in md["chunks"] for k in (ci.get("subruns") or {})})
-                if recorded != [r for r in spec if any(True for _ in layout[str(r)])]:
-                    ctx.violation("redefinition", "stored superrun data records sub-runs %s, the definition is %s"
-                                  % (recorded, spec), {"input": {"layout": layout, "history": hist}, "unit": "redefinition"})
-                made[canon] = True
-                dist["stored_before=%s" % stored] = dist.get("stored_before=%s" % stored, 0) + 1
-                nontriv += 1
-        finally:
-            shutil.rmtree(d, ignore_errors=True)
+        runs = [1, 2, 3, 4]
+        t = 0
+        first_id = 0
+        layout = {}
+        for r in runs:
+            chunks, first_id = gen_subrun_chunks(ctx.rng, t, first_id, r)
+            # zero-duration chunks are outside the property's quantifier (finding F3)
+            chunks = [(s, e, rows) for (s, e, rows) in chunks if s < e] or [(t, t + 500, [])]
+            fixed, cur = [], t
+            for (s, e, rows) in chunks:
+                fixed.append((cur, cur + (e - s), [(a - s + cur, b - s + cur, i, ch) for (a, b, i, ch) in rows]))
+                cur += e - s
+            layout[str(r)] = fixed
+            t = cur
+        rechunk = ctx.rng.random() < 0.5
+        orders = []
+        for step in range(6):
+            order = ctx.rng.sample(runs, ctx.rng.randint(1, 3))
+            orders.append(order)
+        reason, seen = run_history(layout, rechunk, orders, "redef%d" % h)
+        if reason:
+            ctx.violation("redefinition", reason,
+                          {"input": {"layout": layout, "rechunk": rechunk, "orders": orders}, "unit": "redefinition"})
+        for f in seen:
+            dist["stored_before=%s" % f] = dist.get("stored_before=%s" % f, 0) + 1
+        nontriv += len(seen)
     ctx.count("redefinition", n_hist * 6, nontriv, dist)
 
 
@@ -1424,7 +1518,7 @@ def run(ctx):
     ctx.assumptions += [
         "run-id strings are single digits numbered in string order (so json sort_keys order = integer order)",
         "plugins copy their single input (rows are identified by an id column)",
-        "per-sub-run levels are stored with rechunk_on_save=False, so the stored layout is the generated one",
+        "the source plugin is stored with rechunk_on_save=False; every other level has its own rechunk flag and target",
         "time-range sub-run specs are out of scope"]
     try:
         # strax prints ("Source finished!") and draws progress bars: keep stdout for the verdict lines only
@@ -1433,6 +1527,8 @@ def run(ctx):
                 fn(ctx)
     finally:
         shutil.rmtree(TMP, ignore_errors=True)
+        # lib.finish prints the first 8 violations: concrete failing inputs first
+        ctx.violations.sort(key=lambda v: bool(v["nfi"]))
 
 
 def replay(ctx, obj):
@@ -1456,6 +1552,19 @@ def replay(ctx, obj):
             if s:
                 reasons.append(check_exact(case, parse_shows(s), "stored"))
         reason = next((x for x in reasons if x), None)
+    elif unit == "redefinition":
+        reason, seen = run_history(case["layout"], case["rechunk"], case["orders"], "replay")
+        out = seen
+    elif unit == "annot_concat":
+        c = case["chunk"]
+        cs, bad = build_all([c])
+
+        def f():
+            c1, c2 = cs[0].split(case["t"], allow_early_split=bool(case["early"]))
+            back = guarded(lambda: "ok " + show_real(strax.Chunk.concatenate([c1, c2], allow_superrun=True)))
+            return "ok " + show_real(cs[0]) + " | " + back
+        out = bad or guarded(f)
+        reason = spec_concat_inverse(("inverse", c, case["t"], case["early"]), out)
     elif unit == "annot_split":
         c = case["chunk"]
         cs, bad = build_all([c])
